@@ -161,6 +161,26 @@ def observe(tier, seed, want_cli=True, want_pool=True, cli_focus="all", pid="pip
             run_cli(binary, rec, cfg, "p1", ["polygon", "--sides", "4"], "Hard", 16, threads,
                     ["--steps", "50", "--max-step-size", "1000000"], work, "polygon", 4)
             stats["cli_invocations"] += 1
+        # many replications (work handed out in batches must still return the best of all)
+        many = ["--steps", "60", "--inner-steps", "30", "--kt-start", "0.2", "--kt-ratio", "0.5", "--max-step-size", "0.1"]
+        for (g, sargs, kind, items, counts) in (("p1", ["circle"], "circle", 1, (26, 51, 76, 101, 201)), ("p2", ["polygon", "--sides", "4"], "polygon", 4, (76, 101, 201)),
+                                                ("p1g1", ["circle"], "circle", 1, (76, 101, 201)), ("p2mm", ["polygon", "--sides", "5"], "polygon", 5, (76, 101, 201)),
+                                                ("p2", ["trimer"], "trimer", 3, (76, 101, 201))):
+            cfg = rec.new_cfg()
+            for reps in counts:
+                run_cli(binary, rec, cfg, g, sargs, "Hard", reps, 4, many, work, kind, items)
+                stats["cli_invocations"] += 1
+        # the output path holds a better-scoring structure of the same group and shape kind with
+        # other shape parameters: what is written is what was asked for now
+        shared2 = os.path.join(work, "shared_out2")
+        for p2 in (shared2 + ".json", shared2 + ".svg"):
+            if os.path.exists(p2):
+                os.remove(p2)
+        cfg = rec.new_cfg()
+        run_cli(binary, rec, cfg, "p1", ["polygon", "--sides", "4"], "Hard", 4, 4, ["--steps", "2000"], work, "polygon", 4, outfile=shared2)
+        cfg = rec.new_cfg()
+        run_cli(binary, rec, cfg, "p1", ["polygon", "--sides", "5"], "Hard", 1, 1, ["--steps", "100"], work, "polygon", 5, outfile=shared2, keep_existing=True)
+        stats["cli_invocations"] += 2
         # an option the program accepts and does not use
         cfg = rec.new_cfg()
         run_cli(binary, rec, cfg, "p2mm", ["circle"], "Hard", 2, 2, opt + ["--start-config", os.path.join(work, "no_such_file.json")], work, "circle", 1)
